@@ -388,7 +388,7 @@ class Gen:
         """C15: byte strings for the form parser, raw and escaped ill-formed UTF-8"""
         self.emit('case')
         self.stat('case:form')
-        alphabet = [0x26, 0x3D, 0x2B, 0x25, 0x34, 0x31, 0x46, 0x61, 0x3F, 0xC3, 0xA9, 0xFF, 0x20, 0x67, 0xE2, 0x82, 0xF0, 0x9F, 0x92, 0x78]
+        alphabet = [0x26, 0x3D, 0x2B, 0x25, 0x34, 0x31, 0x46, 0x61, 0x3F, 0xC3, 0xA9, 0xFF, 0x20, 0x67, 0xE2, 0x82, 0xF0, 0x9F, 0x92, 0x78, 0xC0, 0xC1, 0xAE, 0x80]
         n = self.r.randrange(0, 16)
         b = [self.pick(alphabet) for _ in range(n)]
         # finding F4 (raw lead byte followed by an escaped continuation) is excluded from this stream:
@@ -778,7 +778,25 @@ class Gen:
         self.stat('case:file')
         x = self.r.randrange(100)
         segs = ['a', 'b c', '.', '..', '...', '%', '%41', '?', '#', ':', '|', '\\', 'C:', 'C|', '\u00e4', '\U0001f600', '\x01', '\x7f', '\x00', '', 'x.y', '..x', 'x..', ' ', '\t', 'a\nb', '~', '^', '{}', '`', "'", '"', '<>', ';', '=', '&', '+', '$', ',', '@', '[', ']', '!', '*', '(', ')']
-        if x < 30:
+        if x < 8:
+            # char paths with ILL-FORMED UTF-8 segments: overlong spellings of the characters the conversion must not let
+            # through ('.', '/', NUL, '\\', ':', '|', '%', '?', '#'), lone leads and trails, truncated sequences — the raw-byte
+            # checks see bytes >= 0x80 only; what the encoder makes of them must not become a delimiter or a dot segment
+            def over2(c): return [0xC0 | (c >> 6), 0x80 | (c & 0x3F)]
+            def over3(c): return [0xE0, 0x80 | (c >> 6), 0x80 | (c & 0x3F)]
+            frag = [over2(0x2E) * 2, over2(0x2E), over2(0x2F), over2(0x00), over2(0x5C), over2(0x3A), over2(0x7C), over2(0x25), over2(0x3F), over2(0x23),
+                    over3(0x2E) * 2, over3(0x2F), over3(0x5C), [0xC1, 0x9C], [0xC1, 0xBF], [0xC0], [0xC1], [0xC0, 0x2E], [0x2E, 0xC0, 0xAE]] + BAD8
+            fmt = self.pick(['posix', 'windows'])
+            sep = [0x2F] if fmt == 'posix' else self.pick([[0x5C], [0x2F]])
+            b = list(sep) if fmt == 'posix' else units(self.pick(['C:\\', '\\\\srv\\share\\', 'c:/', '\\\\?\\C:\\']), 8)
+            for i in range(self.r.randrange(1, 4)):
+                seg = []
+                for _ in range(self.r.randrange(1, 3)): seg += self.pick(frag) if self.r.randrange(4) else units(self.pick(['a', 'x', '..', '.', 'etc']), 8)
+                b += (sep if i else []) + seg
+            if self.r.randrange(2): b += sep + units('etc', 8)
+            self.emit('%s %s 8 %s' % (self.pick(['frompath', 'frompath', 'rt']), fmt, U(b)))
+            self.stat('file:illformed-bytes')
+        elif x < 30:
             p = '/' + '/'.join(self.pick(segs) for _ in range(self.r.randrange(0, 5)))
             if self.r.randrange(8) == 0: p = p[1:]
             if self.r.randrange(6) == 0: p = p[:self.r.randrange(0, len(p) + 1)]
